@@ -578,6 +578,142 @@ def rule_doppelblock(n: int, clue_row: List[int], clue_column: List[int]) -> Cal
     return ok
 
 
+def rule_compass(h: int, w: int, problem: List[Tuple[int, int, int, int, int, int]]) -> Callable[[Sequence[int]], bool]:
+    """clue = (y, x, up, left, down, right); answer = region index per cell"""
+
+    def ok(pat: Sequence[int]) -> bool:
+        reg = {(y, x): pat[y * w + x] for y in range(h) for x in range(w)}
+        for i, (cy, cx, up, lf, dw, rg) in enumerate(problem):
+            mine = {c for c in cells(h, w) if reg[c] == i}
+            if (cy, cx) not in mine or not connected(h, w, mine):
+                return False
+            if up >= 0 and sum(1 for (y, x) in mine if y < cy) != up:
+                return False
+            if dw >= 0 and sum(1 for (y, x) in mine if y > cy) != dw:
+                return False
+            if lf >= 0 and sum(1 for (y, x) in mine if x < cx) != lf:
+                return False
+            if rg >= 0 and sum(1 for (y, x) in mine if x > cx) != rg:
+                return False
+        return True
+
+    return ok
+
+
+def rule_geradeweg(h: int, w: int, problem: List[List[int]]) -> Callable[[Sequence[bool]], bool]:
+    edges = frame_edges(h - 1, w - 1)
+
+    def ok(pat: Sequence[bool]) -> bool:
+        if not single_loop_or_empty(edges, pat):
+            return False
+        on = {e for e, b in zip(edges, pat) if b}
+
+        def has(a: Cell, b: Cell) -> bool:
+            return (a, b) in on or (b, a) in on
+
+        def run(c: Cell, dy: int, dx: int) -> int:
+            k = 0
+            y, x = c
+            while 0 <= y + dy < h and 0 <= x + dx < w and has((y, x), (y + dy, x + dx)):
+                y, x, k = y + dy, x + dx, k + 1
+            return k
+
+        for c in cells(h, w):
+            n = problem[c[0]][c[1]]
+            if n >= 1:
+                hz, vt = run(c, 0, -1) + run(c, 0, 1), run(c, -1, 0) + run(c, 1, 0)
+                if hz == 0 and vt == 0:
+                    return False  # the loop passes through every numbered cell
+                if hz and hz != n:
+                    return False
+                if vt and vt != n:
+                    return False
+        return True
+
+    return ok
+
+
+def rule_view(h: int, w: int, problem: List[List[int]]) -> Callable[[Sequence[Any]], bool]:
+    """answer = the number grid (0 where there is none), then the has-number grid"""
+
+    def ok(pat: Sequence[Any]) -> bool:
+        num = {(y, x): pat[y * w + x] for y in range(h) for x in range(w)}
+        has = {(y, x): pat[h * w + y * w + x] for y in range(h) for x in range(w)}
+        if not connected(h, w, {c for c in cells(h, w) if has[c]}):
+            return False
+        for c in cells(h, w):
+            clue = problem[c[0]][c[1]]
+            if clue >= 0 and (not has[c] or num[c] != clue):
+                return False
+            if not has[c]:
+                if num[c] != 0:
+                    return False
+                continue
+            seen = 0
+            for dy, dx in ((-1, 0), (1, 0), (0, -1), (0, 1)):
+                y, x = c[0] + dy, c[1] + dx
+                while 0 <= y < h and 0 <= x < w and not has[(y, x)]:
+                    seen += 1
+                    y, x = y + dy, x + dx
+            if num[c] != seen:
+                return False
+            for d in nb4(h, w, c):
+                if has[d] and num[d] == num[c]:
+                    return False
+        return True
+
+    return ok
+
+
+def rule_fivecells(h: int, w: int, problem: List[List[int]]) -> Callable[[Sequence[bool]], bool]:
+    """cells with a value below -1 are holes; answer = one border flag per pair of adjacent board cells, vertical neighbour
+    first then horizontal neighbour, scanning the cells row by row (the order the solver builds its graph in)"""
+    board = [c for c in cells(h, w) if problem[c[0]][c[1]] >= -1]
+    pairs: List[Tuple[Cell, Cell]] = []
+    for (y, x) in cells(h, w):
+        if (y, x) in board:
+            if (y + 1, x) in board:
+                pairs.append(((y, x), (y + 1, x)))
+            if (y, x + 1) in board:
+                pairs.append(((y, x), (y, x + 1)))
+
+    def ok(pat: Sequence[bool]) -> bool:
+        border = dict(zip(pairs, pat))
+        # regions = components of the board under "no border between"
+        parent = {c: c for c in board}
+
+        def find(a: Cell) -> Cell:
+            while parent[a] != a:
+                parent[a] = parent[parent[a]]
+                a = parent[a]
+            return a
+
+        for (a, b), br in border.items():
+            if not br:
+                parent[find(a)] = find(b)
+        groups: Dict[Cell, List[Cell]] = {}
+        for c in board:
+            groups.setdefault(find(c), []).append(c)
+        if any(len(g) != 5 for g in groups.values()):
+            return False
+        # a border flag must be set exactly between different regions
+        for (a, b), br in border.items():
+            if br != (find(a) != find(b)):
+                return False
+        for c in board:
+            n = problem[c[0]][c[1]]
+            if n >= 0:
+                cnt = 0
+                for d in ((c[0] - 1, c[1]), (c[0] + 1, c[1]), (c[0], c[1] - 1), (c[0], c[1] + 1)):
+                    if d not in board or find(d) != find(c):
+                        cnt += 1
+                if cnt != n:
+                    return False
+        return True
+
+    return ok
+
+
 def decide_sudoku(a: tuple, kw: dict, ids: List[int], posted: "_Posted", ext: Extender, label: str) -> Tuple[str, str, int]:
     """the answer space (size^(size^2)) cannot be enumerated; instead
     (sound) every posted constraint is a consequence of the rules: an all-different over cells of one row, column or block, or a
@@ -767,6 +903,22 @@ def instances(tier: str) -> List[Tuple[str, tuple, dict, Callable[..., Callable[
     # doppelblock, order 3 (numbers 1..1)
     I += [("doppelblock", (3, [-1, -1, -1], [-1, -1, -1]), {}, rule_doppelblock),
           ("doppelblock", (3, [1, -1, 0], [-1, 0, 1]), {}, rule_doppelblock)]
+    # compass
+    I += [("compass", (2, 3, [(0, 0, -1, -1, 1, 1), (1, 2, 1, -1, -1, -1)]), {}, rule_compass),
+          ("compass", (3, 2, [(0, 0, 0, 0, -1, -1), (2, 1, -1, 1, 0, -1)]), {}, rule_compass),
+          ("compass", (2, 3, [(0, 1, -1, 1, -1, -1), (1, 0, -1, -1, -1, 2), (0, 2, 0, -1, 0, 0)]), {}, rule_compass)]
+    # geradeweg
+    I += [("geradeweg", (3, 3, [[0, 0, 0], [0, 0, 0], [0, 0, 2]]), {}, rule_geradeweg),
+          ("geradeweg", (3, 3, [[1, 0, 0], [0, 0, 0], [0, 2, 0]]), {}, rule_geradeweg),
+          ("geradeweg", (2, 3, [[2, 0, 0], [0, 0, 1]]), {}, rule_geradeweg)]
+    # view (integer numbers + has-number flags)
+    I += [("view", (2, 2, [[-1, -1], [-1, -1]]), {}, rule_view),
+          ("view", (1, 3, [[-1, -1, 1]]), {}, rule_view),
+          ("view", (2, 2, [[2, -1], [-1, -1]]), {}, rule_view)]
+    # fivecells
+    I += [("fivecells", (1, 5, [[-1, 3, -1, -1, -1]]), {}, rule_fivecells),
+          ("fivecells", (1, 10, [[-1, -1, -1, -1, 3, -1, -1, -1, -1, 2]]), {}, rule_fivecells),   # two pentominoes in a row
+          ("fivecells", (2, 3, [[-1, -1, -1], [-1, 1, -2]]), {}, rule_fivecells)]
     # sudoku: decided through constraint-wise soundness and pairwise refutation (all boards of that order)
     I += [("sudoku", ([[1, 0, 0, 2], [0, 0, 0, 0], [0, 0, 0, 0], [3, 0, 0, 4]],), {"n": 2}, decide_sudoku),
           ("sudoku", ([[0] * 9 for _ in range(8)] + [[0, 0, 0, 0, 0, 0, 0, 0, 7]],), {"n": 3}, decide_sudoku)]
@@ -797,6 +949,27 @@ class _Posted:
         return self._cons
 
 
+def _install_group_standin(w: Any) -> None:
+    """division_connected_variable_groups (graph form, constant size) has no native operator; here it is replaced by a
+    definitional stand-in: fresh group-id variables and one constraint meaning 'the classes of equal id are connected blocks of
+    the given size, each named after one of its own vertices' - which is what C07 decides the rank encoding to mean"""
+    from ..core.fde import Obj, Tag
+
+    def standin(solver: Any, graph: Any = None, group_size: Any = None, shape: Any = None) -> Any:
+        if graph is None or shape is not None or not (group_size is None or (isinstance(group_size, int) and not isinstance(group_size, bool))):
+            raise Undecided("division_connected_variable_groups form without a definitional stand-in")
+        n = graph.attrs["num_vertices"]
+        edges = [tuple(e) for e in graph.attrs["edges"]]
+        gid = w.cw.method(solver, "int_array")(n, 0, n - 1)
+        c = Obj(["BoolExpr", "Expr"], op=Tag("Op.X_VARGROUPS"),
+                operands=[n, len(edges), group_size] + [x for e in edges for x in e] + list(gid.attrs["data"]), name="X_VARGROUPS")
+        w.cw.method(solver, "ensure")(c)
+        return gid
+
+    w.cw.genv["division_connected_variable_groups"] = standin
+    w.cw.genv["graph.division_connected_variable_groups"] = standin
+
+
 def _job(args) -> Tuple[str, str, int]:
     root, overrides, idx, tier = args
     from .c11 import SolverWorld, variables_of  # late import: c11 imports this module's run hook
@@ -810,6 +983,7 @@ def _job(args) -> Tuple[str, str, int]:
         # rank encodings used otherwise mean the same is what C04-C07 decide, that only the flag chooses is C20's CFG-4
         w = SolverWorld(repo, name, primitives=True)
         w.cw.ev.strict_index = False
+        _install_group_standin(w)
         res = w.cw.call(fn, *a, **kw)
         if not isinstance(res, tuple) or len(res) < 2 or len(w.solvers) != 1:
             return "undecided", f"{label}: unexpected result shape", 0
